@@ -250,8 +250,13 @@ def select_weigh(draw, ds, universe, clean, frames, allow_short=True, allow_risk
         # a statistic exists only where the ticker has a price (SelectN itself applies no tradability filter)
         cols = {k: [(round(draw(st.floats(-1, 1, allow_nan=False)), 3) if (pr is None or k not in pr or pr[k][i] is not None) else None) for i in range(n)] for k in universe}
         nm = "stat%d" % len(frames)
-        frames[nm] = {"kind": "frame", "cols": cols}
-        out.append(["SetStat", {"frame": nm, "by_name": draw(st.booleans())}])
+        fr = {"kind": "frame", "cols": cols}
+        if draw(st.integers(0, 2)) == 0 and n >= 3:
+            # a statistic published on some dates only (SetStat stops the stack on the others)
+            keep = sorted(draw(st.lists(st.integers(0, n - 1), min_size=1, max_size=n - 1, unique=True)))
+            fr = {"kind": "frame", "dates": [ds[i] for i in keep], "cols": {k: [v[i] for i in keep] for k, v in cols.items()}}
+        frames[nm] = fr
+        out.append(["SetStat", {"frame": nm, "by_name": draw(st.booleans()), "lag": {"days": draw(st.sampled_from([0, 0, 1, 2, 3]))}}])
         out.append(["SelectN", {"n": draw(st.integers(1, len(universe))), "sort_descending": draw(st.booleans())}])
     elif sk == "where":
         cols = {k: [draw(st.booleans()) for _ in range(n)] for k in universe}
@@ -410,7 +415,7 @@ def walk_nodes(node, path=()):
     """yield (path, node_spec) for strategy nodes"""
     if isinstance(node, dict) and "name" in node:
         yield path + (node["name"],), node
-        for c in node.get("children") or []:
+        for c in (node.get("children") or []) + (node.get("late") or []):
             yield from walk_nodes(c, path + (node["name"],))
 
 
